@@ -251,7 +251,8 @@ Definition store_delete (st : vol) (id cookie : N) (at_ns : N) : vol * err * Z :
     end.
 
 (* Store.ReadVolumeNeedle / readNeedle; the needle passed in has Id and Cookie only.
-   Result: error class, returned count, and the needle afterwards (blank on every error path). *)
+   Result: error class, returned count, and the needle afterwards (untouched = blank on the
+   not-found / deleted / read-error paths, filled on the expired path). *)
 Definition store_read (st : vol) (id cookie : N) (read_deleted : bool) (now : N) : err * Z * view :=
   match nm_get (nm st) id with
   | None => (ENotFound, (-1)%Z, blank_view cookie)
@@ -265,7 +266,8 @@ Definition store_read (st : vol) (id cookie : N) (read_deleted : bool) (now : N)
             | None => (EOther, 0%Z, blank_view cookie)
             | Some r =>
                 let v := view_of_rec r in
-                if view_expired v (r_at r) now then (ENotFound, (-1)%Z, blank_view cookie)
+                (* the needle passed in has been filled by ReadData before the TTL test *)
+                if view_expired v (r_at r) now then (ENotFound, (-1)%Z, v)
                 else (ENone, Z.of_N (blen (v_data v)), v)
             end in
         if size_deleted (nv_size nv) then
@@ -289,10 +291,41 @@ Definition octet_stream : bytes :=
 Definition is_gzip_content (d : bytes) : bool :=
   match d with a :: b :: _ => (a =? 31) && (b =? 139) | _ => false end.
 
+(* strings.ToLower on ASCII *)
+Definition lower_ascii (b : bytes) : bytes :=
+  map (fun c => if (65 <=? c) && (c <=? 90) then c + 32 else c) b.
+
+(* filepath.Ext: the suffix starting at the last dot of the last path element *)
+Definition is_dot_or_slash (c : N) : bool := (c =? 46) || (c =? 47).
+Fixpoint ext_of (l : bytes) : bytes :=
+  match l with
+  | [] => []
+  | c :: r => if existsb is_dot_or_slash r then ext_of r else if c =? 46 then l else []
+  end.
+
+(* mime.TypeByExtension on the extensions the harness uses (Go's built-in table; the lookup
+   falls back to the lower-cased extension); every other extension of the harness universe is
+   unknown to the mime package.  The harness asserts this table against the real function. *)
+Definition ext_css : bytes := [46; 99; 115; 115].     (* ".css" *)
+Definition ext_pdf : bytes := [46; 112; 100; 102].    (* ".pdf" *)
+Definition mime_css : bytes :=                        (* "text/css; charset=utf-8" *)
+  [116;101;120;116;47;99;115;115;59;32;99;104;97;114;115;101;116;61;117;116;102;45;56].
+Definition mime_pdf : bytes :=                        (* "application/pdf" *)
+  [97;112;112;108;105;99;97;116;105;111;110;47;112;100;102].
+Definition mime_by_ext (e : bytes) : bytes :=
+  let le := lower_ascii e in
+  if bytes_eqb le ext_css then mime_css else if bytes_eqb le ext_pdf then mime_pdf else [].
+
+(* writeResponseContent: the stored mime unless it is empty or application/octet-stream*,
+   else the type of the file name's extension *)
+Definition served_mime (filename mime : bytes) : bytes :=
+  let m := if is_prefix octet_stream mime then [] else mime in
+  if blen m =? 0 then (let e := ext_of filename in if blen e =? 0 then [] else mime_by_ext e) else m.
+
 Definition hproj (v : view) : hview :=
   {| h_data := v_data v;
      h_name := v_name v;
-     h_mime := if is_prefix octet_stream (v_mime v) then [] else v_mime v;
+     h_mime := served_mime (v_name v) (v_mime v);
      h_pairs := if has_pairs (v_flags v) then v_pairs v else [];
      h_lastmod := v_lastmod v;
      h_gzip := is_compressed (v_flags v) && is_gzip_content (v_data v) |}.
@@ -323,9 +356,24 @@ Record upload := {
   u_pairs : bytes;      (* json.Marshal of the pair map; [] when there is no Seaweed-* header *)
   u_ts : N; u_ttl : N * N; u_gzip : bool }.
 
-(* parseMultipart + CreateNeedleFromRequest *)
+(* parseMultipart: ext = ToLower(FileName[LastIndex(FileName, "."):]) when that index is > 0 *)
+Fixpoint from_last_dot (l : bytes) : bytes :=
+  match l with
+  | [] => []
+  | c :: r => if existsb (fun x => x =? 46) r then from_last_dot r else if c =? 46 then l else []
+  end.
+Definition upload_ext (name : bytes) : bytes :=
+  match name with
+  | [] => []
+  | _ :: r => lower_ascii (from_last_dot r)     (* a dot at index 0 does not count *)
+  end.
+
+(* parseMultipart + CreateNeedleFromRequest; the part's Content-Type is kept only when it is not
+   what the file name's extension already says *)
 Definition needle_of_upload (u : upload) : needle :=
-  let mime := if (blen (u_ctype u) =? 0) || bytes_eqb (u_ctype u) octet_stream then [] else u_ctype u in
+  let mtype := let e := upload_ext (u_name u) in if blen e =? 0 then [] else mime_by_ext e in
+  let mime := if (blen (u_ctype u) =? 0) || bytes_eqb (u_ctype u) octet_stream || bytes_eqb mtype (u_ctype u)
+              then [] else u_ctype u in
   let f := (if blen (u_name u) <? 256 then 2 else 0)
          + (if blen mime <? 256 then 4 else 0)
          + (if negb (blen (u_pairs u) =? 0) && (blen (u_pairs u) <? 65536) then 32 else 0)
@@ -539,9 +587,16 @@ Fixpoint all2 {A B} (f : A -> B -> bool) (l1 : list A) (l2 : list B) : bool :=
 
 (* ---------- input well-formedness and the triggers of the known findings ---------- *)
 (* a needle the v2/v3 record format can represent (the limits CreateNeedleFromRequest enforces) *)
+(* prepareWriteBuffer stores MimeSize = uint8(len(Mime)) and the caller's PairsSize (uint16) but
+   writes all the bytes: a longer mime / pairs field written under its flag gives a record whose
+   Size header disagrees with its bytes.  Such needles are outside the model. *)
+Definition mime_fits (n : needle) : bool := negb (has_mime (n_flags n)) || (blen (n_mime n) <? 256).
+Definition pairs_fit (n : needle) : bool := negb (has_pairs (n_flags n)) || (blen (n_pairs n) <? 65536).
+
 Definition wf_needle (n : needle) : bool :=
   (n_flags n <? 128) &&                       (* one byte, not a chunk manifest *)
-  (blen (n_name n) <? 256) && (n_lastmod n <? 1099511627776).
+  (blen (n_name n) <? 256) && (n_lastmod n <? 1099511627776) &&
+  mime_fits n && pairs_fit n.
 
 Definition op_needle (o : op) : option needle :=
   match o with Write n => Some n | Post u => Some (needle_of_upload u) | _ => None end.
@@ -572,4 +627,338 @@ Fixpoint meta_dup (seen : list needle) (h : list event) : bool :=
       | Some n => existsb (conflicts n) seen || meta_dup (n :: seen) h'
       | None => meta_dup seen h'
       end
+  end.
+
+(* ====================================================================================== *)
+(* Additions for C01 (second round).  Nothing above depends on them.                       *)
+(* ====================================================================================== *)
+
+(* ---------- the literals used above under the names of their Go sources ---------- *)
+Definition vc_header_size : N := 16.        (* types.NeedleHeaderSize = CookieSize + NeedleIdSize + SizeSize *)
+Definition vc_checksum_size : N := 4.       (* needle.NeedleChecksumSize *)
+Definition vc_timestamp_size : N := 8.      (* types.TimestampSize *)
+Definition vc_padding_size : N := 8.        (* types.NeedlePaddingSize *)
+Definition vc_super_block_size : N := 8.    (* super_block.SuperBlockSize *)
+Definition vc_lastmod_bytes : N := 5.       (* needle.LastModifiedBytesLength *)
+Definition vc_ttl_bytes : N := 2.           (* needle.TtlBytesLength *)
+Definition vc_max_name : nat := 255.        (* math.MaxUint8 *)
+Definition vc_flag_compressed : N := 1.     (* needle.FlagIsCompressed *)
+Definition vc_flag_name : N := 2.           (* needle.FlagHasName *)
+Definition vc_flag_mime : N := 4.           (* needle.FlagHasMime *)
+Definition vc_flag_lastmod : N := 8.        (* needle.FlagHasLastModifiedDate *)
+Definition vc_flag_ttl : N := 16.           (* needle.FlagHasTtl *)
+Definition vc_flag_pairs : N := 32.         (* needle.FlagHasPairs *)
+Definition vc_flag_manifest : N := 128.     (* needle.FlagIsChunkManifest *)
+Definition vc_tombstone : Z := (-1)%Z.      (* types.TombstoneFileSize *)
+
+(* ---------- further entry points ---------- *)
+(* a GET/HEAD request: Accept-Encoding: gzip or none, HEAD, a file name in the URL path
+   (/vid/fid/name; [] for the /vid,fid /vid,fid.ext /vid/fid forms) *)
+Record gopt := { g_gzip : bool; g_head : bool; g_name : bytes }.
+Definition gopt_default : gopt := {| g_gzip := true; g_head := false; g_name := [] |}.
+
+Inductive xop :=
+| XBase (o : op)
+| XGet (id cookie : N) (rd : bool) (g : gopt)          (* GetOrHeadHandler, any request form *)
+| XBatch (fids : list (N * N)) (skip : bool).          (* gRPC BatchDelete(FileIds, SkipCookieCheck) *)
+Definition xevent := (N * xop)%type.
+
+Inductive xout :=
+| XO (o : out)
+| XOGet (status : N) (h : hview) (clen : N)            (* clen = Content-Length header (0 when absent) *)
+| XOBatch (rs : list (N * N)).                         (* (Status, Size) of every DeleteResult *)
+
+Definition drop_body (h : hview) : hview :=
+  {| h_data := []; h_name := h_name h; h_mime := h_mime h; h_pairs := h_pairs h;
+     h_lastmod := h_lastmod h; h_gzip := h_gzip h |}.
+
+Fixpoint memN (k : N) (l : list N) : bool :=
+  match l with [] => false | x :: r => (x =? k) || memN k r end.
+
+Fixpoint pairs_eqb (a b : list (N * N)) : bool :=
+  match a, b with
+  | [], [] => true
+  | x :: a', y :: b' => pair_eqb x y && pairs_eqb a' b'
+  | _, _ => false
+  end.
+
+Section Gunzip.
+(* util.DecompressData applied to bytes that start with the gzip magic (compress/gzip is a black box) *)
+Variable gun : bytes -> bytes.
+
+(* GetOrHeadHandler: a compressed needle is served as stored to a client that accepts gzip when
+   its bytes are a gzip stream, and decompressed otherwise (bytes that are not a gzip stream
+   come back unchanged from DecompressData) *)
+Definition served_data (g : gopt) (v : view) : bytes * bool :=
+  if is_compressed (v_flags v) then
+    if g_gzip g && is_gzip_content (v_data v) then (v_data v, true)
+    else ((if is_gzip_content (v_data v) then gun (v_data v) else v_data v), false)
+  else (v_data v, false).
+
+Definition hproj_x (g : gopt) (v : view) : hview :=
+  let filename := if blen (g_name g) =? 0 then v_name v else g_name g in
+  {| h_data := fst (served_data g v);
+     h_name := filename;
+     h_mime := served_mime filename (v_mime v);
+     h_pairs := if has_pairs (v_flags v) then v_pairs v else [];
+     h_lastmod := v_lastmod v;
+     h_gzip := snd (served_data g v) |}.
+
+Definition http_get_x (st : vol) (id cookie : N) (rd : bool) (g : gopt) (now : N) : N * hview * N :=
+  let '(e, count, v) := store_read st id cookie rd now in
+  if negb (err_eqb e ENone) || (count <? 0)%Z then (404, blank_hview, 0)
+  else if negb (v_cookie v =? cookie) then (404, blank_hview, 0)
+  else let h := hproj_x g v in (200, (if g_head g then drop_body h else h), blen (h_data h)).
+
+(* BatchDelete, one file id: the result and whether the loop goes on (a cookie mismatch
+   ends the whole batch: `break`) *)
+Definition batch_one (st : vol) (id cookie : N) (skip : bool) (now : N) : vol * (N * N) * bool :=
+  let del (c : N) :=
+    let '(st', e, z) := store_delete st id c now in
+    (st', (match e with ENone => (202, Z.to_N z) | _ => (500, 0) end), true) in
+  if skip then del 0                                        (* n.Cookie stays 0 *)
+  else
+    let '(e, _, v) := store_read st id cookie false now in
+    if negb (err_eqb e ENone) then (st, (404, 0), true)
+    else if negb (v_cookie v =? cookie) then (st, (400, 0), false)
+    else if is_chunk_manifest (v_flags v) then (st, (406, 0), true)
+    else del (v_cookie v).
+
+Fixpoint batch_delete (st : vol) (fids : list (N * N)) (skip : bool) (now : N) : vol * list (N * N) :=
+  match fids with
+  | [] => (st, [])
+  | (id, c) :: rest =>
+      let '(st', r, cont) := batch_one st id c skip now in
+      if cont then let '(st'', rs) := batch_delete st' rest skip now in (st'', r :: rs)
+      else (st', [r])
+  end.
+
+Definition xstep (st : vol) (ev : xevent) : vol * xout :=
+  let '(t, o) := ev in
+  match o with
+  | XBase b => let '(st', r) := step st (t, b) in (st', XO r)
+  | XGet id c rd g => let '(s, h, l) := http_get_x st id c rd g t in (st, XOGet s h l)
+  | XBatch fids skip => let '(st', rs) := batch_delete st fids skip t in (st', XOBatch rs)
+  end.
+
+Fixpoint xrun (st : vol) (h : list xevent) : list xout :=
+  match h with
+  | [] => []
+  | ev :: h' => let '(st', o) := xstep st ev in o :: xrun st' h'
+  end.
+
+Definition xstate_after (st : vol) (h : list xevent) : vol := fold_left (fun s ev => fst (xstep s ev)) h st.
+
+(* ---------- the specification with every answer field ---------- *)
+Inductive xeout :=
+| XEWrite (ok unchanged : bool) (size : N)      (* success, "unchanged" acknowledgement (204), n.Size *)
+| XEGet (status : N) (h : hview) (clen : option N)
+| XEDel (status : N) (size : N)
+| XERead (found : option (Z * view))
+| XEDelete (ok : bool) (size : Z)
+| XEBatch (rs : list (N * N))
+| XEAny.
+
+(* the last written needle of an id, expired or not *)
+Definition s_stored (sp : spec) (id : N) : option (N * needle) :=
+  match s_get (s_map sp) id with
+  | Some e => match s_live e with Some (n, _) => Some (s_cookie e, n) | None => None end
+  | None => None
+  end.
+
+(* a write that repeats the stored cookie and bytes is acknowledged as "unchanged" *)
+Definition spec_unchanged (sp : spec) (n : needle) : bool :=
+  match s_stored sp (n_id n) with
+  | Some (c, n0) => (c =? n_cookie n) && bytes_eqb (n_data n0) (n_data n)
+  | None => false
+  end.
+
+Definition xexpect_write (sp : spec) (n : needle) (t : N) : xeout :=
+  match snd (spec_write sp n t) with
+  | EWrite true => let u := spec_unchanged sp n in XEWrite true u (if u then 0 else needle_size n)
+  | _ => XEWrite false false 0
+  end.
+
+Definition stored_size (sp : spec) (id : N) : N :=
+  match s_stored sp id with Some (_, n) => needle_size n | None => 0 end.
+
+Definition xexpect (sp : spec) (t : N) (o : op) : xeout :=
+  match o with
+  | Write n => xexpect_write sp n t
+  | Post u => xexpect_write sp (needle_of_upload u) t
+  | Get id c rd =>
+      if rd then XEAny
+      else match s_lookup sp id t with
+           | Some (c', n) => if c' =? c then XEGet 200 (hproj (exp_view n)) None else XEGet 404 blank_hview None
+           | None => XEGet 404 blank_hview None
+           end
+  | RawRead id c rd =>
+      if rd then XEAny
+      else match s_lookup sp id t with
+           | Some (_, n) => XERead (Some (Z.of_N (blen (n_data n)), exp_view n))
+           | None => XERead None
+           end
+  | Del id c =>
+      match s_lookup sp id t with
+      | Some (c', n) =>
+          if negb (c' =? c) then XEDel 400 0
+          else if s_nwod sp then XEDel 500 0
+          else XEDel 202 (needle_size n)
+      | None => XEDel 404 0
+      end
+  | RawDelete id c => if s_nwod sp then XEDelete false 0%Z else XEDelete true (Z.of_N (stored_size sp id))
+  | SetNoWriteOrDelete _ | SetNoWriteCanDelete _ => XEAny
+  end.
+
+(* BatchDelete on the specification: the same loop *)
+Definition spec_batch_one (sp : spec) (id cookie : N) (skip : bool) (t : N) : spec * (N * N) * bool :=
+  if skip then
+    if s_nwod sp then (sp, (500, 0), true) else (spec_kill sp id, (202, stored_size sp id), true)
+  else
+    match s_lookup sp id t with
+    | None => (sp, (404, 0), true)
+    | Some (c', n) =>
+        if negb (c' =? cookie) then (sp, (400, 0), false)
+        else if is_chunk_manifest (n_flags n) then (sp, (406, 0), true)
+        else if s_nwod sp then (sp, (500, 0), true)
+        else (spec_kill sp id, (202, needle_size n), true)
+    end.
+
+Fixpoint spec_batch (sp : spec) (fids : list (N * N)) (skip : bool) (t : N) : spec * list (N * N) :=
+  match fids with
+  | [] => (sp, [])
+  | (id, c) :: rest =>
+      let '(sp', r, cont) := spec_batch_one sp id c skip t in
+      if cont then let '(sp'', rs) := spec_batch sp' rest skip t in (sp'', r :: rs)
+      else (sp', [r])
+  end.
+
+Definition xspec_step (sp : spec) (ev : xevent) : spec * xeout :=
+  let '(t, o) := ev in
+  match o with
+  | XBase b => (fst (spec_step sp (t, b)), xexpect sp t b)
+  | XGet id c rd g =>
+      if rd then (sp, XEAny)
+      else match s_lookup sp id t with
+           | Some (c', n) =>
+               if c' =? c
+               then let h := hproj_x g (exp_view n) in
+                    (sp, XEGet 200 (if g_head g then drop_body h else h) (Some (blen (h_data h))))
+               else (sp, XEGet 404 blank_hview (Some 0))
+           | None => (sp, XEGet 404 blank_hview (Some 0))
+           end
+  | XBatch fids skip => let '(sp', rs) := spec_batch sp fids skip t in (sp', XEBatch rs)
+  end.
+
+Definition xspec_after (sp : spec) (h : list xevent) : spec := fold_left (fun s ev => fst (xspec_step s ev)) h sp.
+
+Definition xmatch (e : xeout) (o : xout) : bool :=
+  match e, o with
+  | XEWrite ok u s, XO (OWrite er u' s') => Bool.eqb (err_eqb er ENone) ok && Bool.eqb u u' && (s =? s')
+  | XEWrite ok u _, XO (OPost st er) =>
+      (st =? (if ok then if u then 204 else 201 else 500)) && Bool.eqb (err_eqb er ENone) ok
+  | XEGet s h None, XO (OGet s' h') => (s =? s') && hview_eqb h h'
+  | XEGet s h (Some l), XOGet s' h' l' => (s =? s') && hview_eqb h h' && (l =? l')
+  | XEDel s z, XO (ODel s' z') => (s =? s') && (z =? z')
+  | XERead (Some (c, v)), XO (ORead er c' v') => err_eqb er ENone && (c =? c')%Z && view_eqb v v'
+  | XERead None, XO (ORead er _ _) => err_eqb er ENotFound || err_eqb er EDeleted
+  | XEDelete ok z, XO (ODelete er z') => Bool.eqb (err_eqb er ENone) ok && (z =? z')%Z
+  | XEBatch rs, XOBatch rs' => pairs_eqb rs rs'
+  | XEAny, _ => true
+  | _, _ => false
+  end.
+
+(* ---------- per-key triggers ---------- *)
+Definition xkeys (o : xop) : list N :=
+  match o with
+  | XBase (Write n) => [n_id n]
+  | XBase (Post u) => [u_id u]
+  | XBase (Get id _ _) | XBase (Del id _) | XBase (RawRead id _ _) | XBase (RawDelete id _) => [id]
+  | XBase (SetNoWriteOrDelete _) | XBase (SetNoWriteCanDelete _) => []
+  | XGet id _ _ _ => [id]
+  | XBatch fids _ => map fst fids
+  end.
+
+Definition xop_needle (o : xop) : option needle :=
+  match o with XBase b => op_needle b | _ => None end.
+
+Definition xseen_next (seen : list needle) (o : xop) : list needle :=
+  match xop_needle o with Some n => n :: seen | None => seen end.
+
+Definition xwf_event (ev : xevent) : bool :=
+  match xop_needle (snd ev) with Some n => wf_needle n | None => true end.
+Definition xwf_history (h : list xevent) : bool := forallb xwf_event h.
+
+(* the finding an event falls under by itself: 0 = empty payload, 1 = repeats id, cookie and
+   bytes of an earlier write with other metadata *)
+Definition self_trig (seen : list needle) (o : xop) : option N :=
+  match xop_needle o with
+  | Some n => if blen (n_data n) =? 0 then Some 0 else if existsb (conflicts n) seen then Some 1 else None
+  | None => None
+  end.
+
+(* the keys a finding has touched so far, each with the number of the finding *)
+Definition dirt := list (N * N).
+Fixpoint dirt_get (D : dirt) (k : N) : option N :=
+  match D with
+  | [] => None
+  | (k', f) :: D' => if k' =? k then Some f else dirt_get D' k
+  end.
+Fixpoint dirt_of_keys (D : dirt) (ks : list N) : option N :=
+  match ks with
+  | [] => None
+  | k :: ks' => match dirt_get D k with Some f => Some f | None => dirt_of_keys D ks' end
+  end.
+
+(* an event soils its keys when it falls under a finding itself or touches a soiled key (a batch
+   that names a soiled key stops or goes on differently, so all its keys are soiled) *)
+Definition dirty_step (D : dirt) (seen : list needle) (o : xop) : dirt :=
+  match (match self_trig seen o with Some f => Some f | None => dirt_of_keys D (xkeys o) end) with
+  | Some f => map (fun k => (k, f)) (xkeys o) ++ D
+  | None => D
+  end.
+
+Fixpoint dirt_after (D : dirt) (seen : list needle) (h : list xevent) : dirt :=
+  match h with
+  | [] => D
+  | ev :: h' => dirt_after (dirty_step D seen (snd ev)) (xseen_next seen (snd ev)) h'
+  end.
+Fixpoint xseen_after (seen : list needle) (h : list xevent) : list needle :=
+  match h with [] => seen | ev :: h' => xseen_after (xseen_next seen (snd ev)) h' end.
+
+(* per event: does the answer satisfy the specification, and the finding (if any) of a soiled key
+   the event touches *)
+Fixpoint xjudge (D : dirt) (seen : list needle) (sp : spec) (h : list xevent) (os : list xout)
+  : list (bool * option N) :=
+  match h, os with
+  | ev :: h', o :: os' =>
+      let D' := dirty_step D seen (snd ev) in
+      let '(sp', e) := xspec_step sp ev in
+      (xmatch e o, dirt_of_keys D' (xkeys (snd ev))) :: xjudge D' (xseen_next seen (snd ev)) sp' h' os'
+  | _, _ => []
+  end.
+
+End Gunzip.
+
+Definition is_some {A} (o : option A) : bool := match o with Some _ => true | None => false end.
+
+(* every answer is the specification's, except (possibly) at events that touch a soiled key *)
+Definition pk_ok (j : list (bool * option N)) : bool := forallb (fun x => fst x || is_some (snd x)) j.
+(* every answer is the specification's *)
+Definition all_ok (j : list (bool * option N)) : bool := forallb fst j.
+(* when some answer is not: the finding of the first such event, provided every failing event
+   touches a soiled key *)
+Fixpoint fail_trig (j : list (bool * option N)) : option N :=
+  match j with
+  | [] => None
+  | (true, _) :: j' => fail_trig j'
+  | (false, Some f) :: j' => if forallb (fun x => fst x || is_some (snd x)) j' then Some f else None
+  | (false, None) :: _ => None
+  end.
+
+(* no event falls under a finding by itself *)
+Fixpoint xclean (seen : list needle) (h : list xevent) : bool :=
+  match h with
+  | [] => true
+  | ev :: h' => negb (is_some (self_trig seen (snd ev))) && xclean (xseen_next seen (snd ev)) h'
   end.
